@@ -129,6 +129,9 @@ func (cl *Cluster) onBlock(n *Node, rec *BlockRec) {
 		c.Violation("block-unknown-atropos", "block-unknown-atropos", "node %s: block with an Atropos that is not a known event", n.name)
 	}
 	at := cl.pool[rec.Atropos]
+	if rec.Frame >= 256 {
+		c.Probe("block_of_frame_256_or_higher")
+	}
 	// ---- C01: same block for (epoch, frame) on every instance ----
 	if cl.on["agree"] {
 		k := fmt.Sprintf("%d/%d", rec.Epoch, rec.Frame)
